@@ -3,7 +3,7 @@ import os
 
 from hypothesis import strategies as st
 
-from vlib import parse, pipeline, scenario as S
+from vlib import build, parse, pipeline, scenario as S
 from vlib.refmodel import gtfcheck
 from vlib.shard import Stage, case_hash
 
@@ -147,9 +147,32 @@ def evaluate_feedback(case, ctx):
         sc2["reads"] = sc["reads2"]
         sc2["overrides"] = sc["overrides"]
         d2 = os.path.join(res.dir, "second")
-        res2 = pipeline.run_case(sc2, ctx, d=d2)
+        paths2 = None
+        if sc.get("verbatim_feedback"):
+            # the file itself is the reference of the second run (with its CDS / codon records and their exon_id's)
+            import shutil
+            paths2 = build.materialise(sc2, os.path.join(d2, "in"))
+            shutil.copyfile(info["eg"], paths2["gtf"])
+        res2 = pipeline.run_case(sc2, ctx, d=d2, paths=paths2)
         ref_ids = ref_exon_ids_of(res2.paths["gtf"])
         info2 = _check_outputs(res2, sc2, ref_ids, ctx, case, tag="")
+        if info2:
+            # an exon_id that the reference uses - on a record of any type - names the same coordinates afterwards
+            owner = {}
+            for rec in parse.gtf(res2.paths["gtf"])["lines"]:
+                if "exon_id" in rec["attrs"]:
+                    owner.setdefault(rec["attrs"]["exon_id"], set()).add((rec["chr"], rec["start"], rec["end"],
+                                                                          rec["strand"]))
+            for fn in ("transcript_models.gtf", "extended_annotation.gtf"):
+                p_ = res2.path(fn)
+                for rec in (parse.gtf(p_)["lines"] if p_ else []):
+                    eid = rec["attrs"].get("exon_id")
+                    key = (rec["chr"], rec["start"], rec["end"], rec["strand"])
+                    if eid in owner and key not in owner[eid]:
+                        ctx.violation("C17:exon-id-of-the-reference-names-other-coordinates",
+                                      {"file": fn, "id": eid, "type": rec["type"], "now": key,
+                                       "in_reference": sorted(owner[eid])[:3]}, case)
+                        break
         if info2 and info2["novel"]:
             ctx.mark_nontrivial(case_hash(case))
             ctx.cls("feedback_novel>0")
@@ -174,6 +197,8 @@ def feedback_scenarios(draw):
                 reads2.append(S.exact_read("s%d" % k, g["chr"], g["strand"], ex, polya=25))
     sc["reads2"] = reads2 or list(sc["reads"])
     sc["gtf"]["exon_ids"] = False
+    sc["verbatim_feedback"] = src.bool(0.5)
+    sc["gtf"]["cds"] = src.bool(0.6)
     return sc
 
 
